@@ -539,7 +539,7 @@ struct MonC08 : Monitor {
         for (auto it = asm_.begin(); it != asm_.end();) if (it->first.first == node && (icon_too || it->first.second != 0x0E)) it = asm_.erase(it); else ++it;
     }
     // a platform change in the middle of a fetch legitimately mixes old and new bytes (except for the cached icon)
-    void on_op(World &, int, const Op &op) override { if (op.kind == OP_ATTR) clear_asm((int)op.a[0], !cache[(int)op.a[0]].have); }
+    void on_op(World &, int, const Op &op) override { if (op.kind == OP_ATTR) clear_asm((int)op.a[0], true); } // also for the icon: an implementation need not cache it
     static Bytes hwid_bytes(const Attr &a) {
         Bytes b(64, 0);
         size_t n = std::min((size_t)64, a.hwid.size());
